@@ -6177,7 +6177,10 @@ class Choice:
         # syms that should be y according to sdkconfig and are visible
         # NOTE: This is tricky; we dont want to resolve sym's value here,
         # but we need to know whether the symbol is visible or not.
-        y_syms_from_sdkconfig = [sym for sym in self.syms if sym._sdkconfig_value == "y" and sym.resolve_vis() == 2]
+        # (a symbol re-declared at a second site of a named choice is listed once per site in self.syms: count it once)
+        y_syms_from_sdkconfig = list(
+            dict.fromkeys(sym for sym in self.syms if sym._sdkconfig_value == "y" and sym.resolve_vis() == 2)
+        )
 
         for sym in self.syms:
             if sym._sdkconfig_value == "y" and sym.visibility == 0:
